@@ -331,6 +331,49 @@ def part_positions(sh, res):
                 if judge(res, 'bare', text, got, pos, {'backend': 'table-direct', 'header': hdr, 'query': text}):
                     res.feat('direct_mode_bare')
                     res.nontrivial += 1
+    # direct mode through rbql-js as well, and direct mode with a JOIN: a bare name present in both tables is ambiguous (parsing error) iff the query mentions it
+    djs, dmeta = [], []
+    for n1 in idn:
+        for n2 in idn:
+            if n1 == n2:
+                continue
+            for pos, hdr in ((0, [n1, n2]), (1, [n2, n1])):
+                djs.append({'op': 'query', 'query': 'select %s, NR' % n1, 'input': ROWS, 'input_names': hdr, 'normalize': False})
+                dmeta.append(('bare', 'select %s, NR' % n1, pos, hdr, None))
+    jrows = [['c1r1', 'J1'], ['c1r3', 'J3']]
+    for n1 in idn[:5]:
+        for n2 in idn[:5]:
+            if n1 == n2:
+                continue
+            for bn in ([n1 + 'q', n2 + 'q'], [n1, n2 + 'q'], [n1 + 'q', n2]):
+                text = 'select %s, %s join b on %s == %s' % (n2, bn[1], n1, bn[0])
+                ambiguous = any(x in (n1, n2) for x in bn)
+                exp = None if ambiguous else [['c2r1', 'J1'], ['c2r3', 'J3']]
+                got = drive.run_py(text, qcheck.copy_table(ROWS), qcheck.copy_table(jrows), [n1, n2], bn, normalize=False)
+                res.evaluations += 1
+                res.traces += 1
+                res.states += 1
+                ok = (got['error'] is not None and got['error'][0] == 'parsing') if ambiguous else (got['error'] is None and got['records'] == exp)
+                if not ok:
+                    res.violation('direct-mode-join-names', {'backend': 'table-direct', 'header': [n1, n2], 'header_b': bn, 'query': text}, exp if exp else 'parsing error (ambiguous name)', {'records': got['records'], 'error': got['error']})
+                else:
+                    res.feat('direct_mode_join_ambiguous' if ambiguous else 'direct_mode_join_ok')
+                djs.append({'op': 'query', 'query': text, 'input': ROWS, 'join': jrows, 'input_names': [n1, n2], 'join_names': bn, 'normalize': False})
+                dmeta.append(('join', text, ambiguous, [n1, n2], exp))
+    if js.available():
+        for (kind, text, x, hdr, exp), o in zip(dmeta, js.run_batch(djs)):
+            got = qcheck.js_got(o)
+            res.evaluations += 1
+            res.traces += 1
+            if kind == 'bare':
+                if judge(res, 'bare', text, got, x, {'backend': 'js-table-direct', 'header': hdr, 'query': text}):
+                    res.feat('js_direct_mode_bare')
+            else:
+                ok = (got['error'] is not None and got['error'][0] == 'parsing') if x else (got['error'] is None and got['records'] == exp)
+                if not ok:
+                    res.violation('js:direct-mode-join-names', {'backend': 'js-table-direct', 'header': hdr, 'query': text}, exp if exp else 'parsing error (ambiguous name)', {'records': got['records'], 'error': got['error']})
+                else:
+                    res.feat('js_direct_mode_join')
     # triples over the nastiest names
     nasty = ['"', "'", '\\', '\\"', "\\'", 'x ', ' x', 'x', '\n', '\t', '#', '[', ']', '",', 'é']
     for trip in itertools.permutations(nasty[:sh['ntriple']], 3):
@@ -609,7 +652,7 @@ def main(tier, seed):
         assumptions=['names containing an a.ident / b.ident token are excluded (the quantifier)', 'the name inside a["..."] is written with the canonical escapes (backslash, quote, \\n, \\r, \\t)'],
         extra={'names': len(names), 'backend_pairs': npairs},
         min_features={'table_dq': 50000, 'table_sq': 50000, 'table_attr': 500, 'csv_dq': 300, 'pandas_dq': 300, 'sqlite_dq': 300, 'csv_join': 300, 'direct_mode_bare': 50, 'triples': 100, 'header_not_data': 20,
-                      'with_overrides_opposite_flag': 50, 'variable_like_names': 300, 'fstring_names': 40, 'js_table_dq': 50000, 'js_table_sq': 50000, 'js_with_override': 100, 'position_update': 100, 'js_position_except': 100, 'js_position_update': 100, 'join_on_ab': 5000, 'join_on_ba': 5000, 'js_join_on_ba': 5000, 'join_on_spelling_dq_sq': 1000})
+                      'with_overrides_opposite_flag': 50, 'variable_like_names': 300, 'fstring_names': 40, 'js_table_dq': 50000, 'js_table_sq': 50000, 'js_with_override': 100, 'position_update': 100, 'js_position_except': 100, 'js_direct_mode_bare': 50, 'direct_mode_join_ambiguous': 20, 'direct_mode_join_ok': 10, 'js_direct_mode_join': 30, 'js_position_update': 100, 'join_on_ab': 5000, 'join_on_ba': 5000, 'js_join_on_ba': 5000, 'join_on_spelling_dq_sq': 1000})
 
 
 def replay(rep):
